@@ -1,5 +1,5 @@
 """C18 - attribute and key views of a simfile or chart never disagree (structural clauses)."""
-from ..rules import serial, views, writers
+from ..rules import serial, views, writers, census
 
 EXPLANATION = (
     "Static rule checking of the descriptor machinery: R-CLONE/R-TABLE the three accessors of item_property apply get / []= / del to "
@@ -30,9 +30,13 @@ def c5(ctx):
     writers.base_items(ctx)
 
 
+def c9(ctx):
+    census.mechanism_census(ctx, sorted(census.WATCHED), "attribute and key views")
+
 CLAUSES = [
     ("C18.1", "one key chooser for get/set/delete", c1),
     ("C18.2-3", "attribute name = lower-cased key; alias table", c2),
     ("C18.4", "SM chart key guards", c4),
     ("C18.5", "equality and serialization read the mapping", c5),
+    ("C18.6", "the mapping methods are the inherited OrderedDict ones except where examined (R-CENSUS)", c9),
 ]
